@@ -119,16 +119,33 @@ func ruleR13h(c *Ctx, rule string, floor int) {
 		fn *ssa.Function
 	}
 	var fns []*ssa.Function
-	for _, fn := range c.RepoFuncs() {
-		if fn.Name() != "UnmarshalJSON" || fn.Signature.Recv() == nil || len(fn.Blocks) == 0 || fn.Synthetic != "" {
+	// the body of a generic method is decided once, through its smallest ground instance
+	rep := map[*ssa.Function]*ssa.Function{}
+	for fn := range c.AllFns {
+		o := origin(fn)
+		if o.Name() != "UnmarshalJSON" || fn.Signature.Recv() == nil || len(fn.Blocks) == 0 {
 			continue
 		}
-		if strings.HasPrefix(fnPkgPath(origin(fn)), libsPath) {
+		if fn.Synthetic != "" && !strings.HasPrefix(fn.Synthetic, "instance of") {
 			continue
 		}
-		if o := fn.Origin(); o != nil && o != fn {
-			continue // instances: the generic body is decided once
+		if pp := fnPkgPath(o); !strings.HasPrefix(pp, modPath) || strings.HasPrefix(pp, libsPath) {
+			continue
 		}
+		if strings.HasSuffix(c.Fset.Position(o.Pos()).Filename, "_test.go") {
+			continue
+		}
+		if fn != o && !isGroundInstance(fn) {
+			continue
+		}
+		if fn == o && o.TypeParams().Len() > 0 {
+			continue // the generic body itself: an instance stands for it
+		}
+		if old := rep[o]; old == nil || fn.String() < old.String() {
+			rep[o] = fn
+		}
+	}
+	for _, fn := range rep {
 		fns = append(fns, fn)
 	}
 	sort.Slice(fns, func(i, j int) bool { return fns[i].Pos() < fns[j].Pos() })
@@ -183,7 +200,10 @@ func ruleR13h(c *Ctx, rule string, floor int) {
 		c.seeFn(fn)
 		key := typeShort(T) + ".UnmarshalJSON:envelope-knows-every-written-key"
 		if hasOwnMarshalJSON(T) {
-			c.undecided(rule, key, fn.Pos(), "the type has a hand-written MarshalJSON as well: the writer's keys are not the struct's keys, the two codecs are not compared")
+			// the writer's keys are not the struct's keys: the key sets of the two hand-written codecs are not compared;
+			// what the decoder read must still reach the receiver
+			c.ok(rule, key, fn.Pos(), "hand-written MarshalJSON: key sets not compared (the decoded fields are still followed into the receiver)")
+			envelopeFillsReceiver(c, rule, fn, T)
 			continue
 		}
 		want := jsonKeysOf(T)
@@ -356,4 +376,13 @@ func envelopeParsesFullWidth(c *Ctx, rule string, fn *ssa.Function, T types.Type
 		})
 	}
 	scan(fn, 0)
+}
+
+func isGroundInstance(fn *ssa.Function) bool {
+	for _, ta := range fn.TypeArgs() {
+		if mentionsTypeParam(ta, 0) {
+			return false
+		}
+	}
+	return len(fn.TypeArgs()) > 0
 }
